@@ -41,10 +41,18 @@ func c06Cases() []c06case {
 					}
 					return unchangedScenario(t, front)
 				}
-				for hi, host := range []string{"router", "other", "router.example.com"} {
+				for _, nh := range c06Hostnames() {
+					dn, hi, host := nh.devName, nh.idx, nh.host
+					if (hi > 2 || dn != "router") && !pending {
+						continue // near-miss names: with pending changes only
+					}
 					for mi, marker := range []string{"present", "absent", "not-configured"} {
+						if (hi > 2 || dn != "router") && mi != 0 {
+							continue
+						}
 						sc := mk()
-						sc.name = fmt.Sprintf("%s/%s/pending=%v/host=%s/marker=%s", t, front, pending, host, marker)
+						sc.name = fmt.Sprintf("%s/%s/pending=%v/name=%s/host=%s/marker=%s", t, front, pending, dn, host, marker)
+						sc.devName = dn
 						sc.hostname = host
 						if t == "PAN-OS" {
 							sc.device = strings.Replace(sc.device, "<hostname>router</hostname>", "<hostname>"+host+"</hostname>", 1)
@@ -73,6 +81,7 @@ func c06Cases() []c06case {
 							c.mustBlock, c.why = true, "marker"
 						} else if mi == 2 && t != "PAN-OS" {
 							like := mk()
+							like.devName = dn
 							like.hostname = host
 							c.like = like
 						}
@@ -107,6 +116,41 @@ func c06Cases() []c06case {
 				}
 				l = append(l, c06case{sc: sc, mustBlock: ha.block, why: "ha"})
 			}
+		}
+	}
+	return l
+}
+
+// c06Hostnames: expected device name x hostname the device reports.
+// idx 0 is the matching hostname; 1, 2 are the plain other / domain
+// suffix variants; the rest are near misses (prefix, suffix, case, one
+// character replaced where the expected name has a regexp or glob
+// metacharacter) that only an exact comparison tells apart.
+type c06nh struct {
+	devName string
+	idx     int
+	host    string
+}
+
+func c06Hostnames() []c06nh {
+	var l []c06nh
+	for _, dn := range []string{"router", "fw.dmz", "fw-[1]"} {
+		hosts := []string{dn, "other", dn + ".example.com", "x" + dn, dn + "2", strings.ToUpper(dn), dn[:len(dn)-1]}
+		for i, c := range dn {
+			if strings.ContainsRune(".[]*?+", c) {
+				hosts = append(hosts, dn[:i]+"-"+dn[i+1:], dn[:i]+"x"+dn[i+1:])
+			}
+		}
+		if dn == "fw-[1]" {
+			hosts = append(hosts, "fw-1")
+		}
+		seen := map[string]bool{}
+		for i, h := range hosts {
+			if i > 0 && (h == dn || seen[h]) {
+				continue
+			}
+			seen[h] = true
+			l = append(l, c06nh{dn, i, h})
 		}
 	}
 	return l
@@ -190,9 +234,9 @@ func panicKey(msg string) string {
 func init() {
 	registerSharded("C06", c06Worker, func(tier string) core.Meta {
 		return core.Meta{ID: "C06", Level: "fault_enumeration",
-			Rule: "full product, no sampling: device type {ASA, IOS, Linux, PAN-OS} x front end {drc, do-approve approve} x pending changes {some, none} x reported hostname {expected, other, expected with domain suffix} x marker {present, absent, banner text not configured} plus PAN-OS high-availability answers {disabled, A/P active, A/P passive, A/A primary, A/A secondary, malformed, unknown mode}; each combination is one real approve run against the simulator; oracle: where the interlock applies the transcript has no config-changing, save/commit or reload-control line, the device state is unchanged, exit status != 0 and a diagnostic is printed; with no banner text configured the run must end like the marker-present run (same exit status and final device state); good devices must be approved (positive control); non-trivial = combinations where an interlock or the not-configured rule applies",
+			Rule: "full product, no sampling: device type {ASA, IOS, Linux, PAN-OS} x front end {drc, do-approve approve} x pending changes {some, none} x reported hostname {expected, other, expected with domain suffix} x marker; for expected names {router, fw.dmz, fw-[1]} additionally near-miss hostnames (prefix, suffix, upper case, last character dropped, each regexp/glob metacharacter of the name replaced by another character) with pending changes and marker present; {present, absent, banner text not configured} plus PAN-OS high-availability answers {disabled, A/P active, A/P passive, A/A primary, A/A secondary, malformed, unknown mode}; each combination is one real approve run against the simulator; oracle: where the interlock applies the transcript has no config-changing, save/commit or reload-control line, the device state is unchanged, exit status != 0 and a diagnostic is printed; with no banner text configured the run must end like the marker-present run (same exit status and final device state); good devices must be approved (positive control); non-trivial = combinations where an interlock or the not-configured rule applies",
 			Assumptions: []string{"NSX has no hostname, marker or HA notion in the statement and is left out"},
-			Bounds:      map[string]any{"runs": "about 170 combinations, same in both tiers"},
+			Bounds:      map[string]any{"runs": "about 330 combinations, same in both tiers"},
 		}
 	}, 120*time.Second, 10*time.Minute)
 }
